@@ -269,6 +269,35 @@ def execute(case, ctx=None):
     return fails, canon(conv), conv
 
 
+def check_collections():
+    """add_prefix takes its synonyms as any Collection[str]: the kind of collection does not matter."""
+    import collections as _c
+
+    fails = []
+    kinds = {"tuple": tuple, "set": set, "frozenset": frozenset, "deque": _c.deque, "dict-keys": lambda xs: dict.fromkeys(xs).keys()}
+    try:
+        import numpy as _np
+        import pandas as _pd
+
+        kinds.update({"numpy.ndarray": lambda xs: _np.array(list(xs), dtype=object), "pandas.Series": lambda xs: _pd.Series(list(xs), dtype=object),
+                      "pandas.Index": lambda xs: _pd.Index(list(xs), dtype=object)})
+    except ImportError:
+        pass
+    for psyn, usyn in ((["gocc", "gomf"], ["http://g2/"]), ([""], ["http://g2/", "http://g3/"]), ([], []), (["gomf"], [""])):
+        ref = Converter([])
+        ref.add_prefix("go", "http://go/", prefix_synonyms=list(psyn), uri_prefix_synonyms=list(usyn))
+        for name, make in kinds.items():
+            conv = Converter([])
+            try:
+                conv.add_prefix("go", "http://go/", prefix_synonyms=make(psyn), uri_prefix_synonyms=make(usyn))
+            except Exception as e:  # noqa
+                fails.append((f"C05/add_prefix-depends-on-the-kind-of-collection/{name}", f"add_prefix('go', 'http://go/', prefix_synonyms=<{name} of {psyn}>, uri_prefix_synonyms=<{name} of {usyn}>) raised {type(e).__name__}: {str(e)[:80]}"))
+                continue
+            if canon(conv) != canon(ref):
+                fails.append((f"C05/add_prefix-depends-on-the-kind-of-collection/{name}", f"synonyms {psyn} / {usyn} given as {name}: records {sorted(map(repr, record_set(conv)))}, given as lists {sorted(map(repr, record_set(ref)))}"))
+    return fails
+
+
 def check_relatives(case):
     """Shallow copies share their state: after one of the two objects executed the operation, BOTH answer every query as a
     converter freshly built from their own current records does (deep copies and pickles are covered by the joint universe)."""
@@ -294,6 +323,8 @@ def check_relatives(case):
 
 
 def replay(case):
+    if case.get("collections"):
+        return check_collections()
     if case.get("relatives"):
         return check_relatives(case)
     if "tla_edge" in case:
@@ -325,6 +356,10 @@ def run_unit(unit, ctx):
             case = {"init": hist["init"], "ops": hist["ops"] + [op]}
             if hist.get("via"):
                 case["via"] = hist["via"]
+            if not hist["ops"] and not hist.get("via") and k == 0 and not hist["init"]:
+                ctx.count("collection_checks")
+                for sig, msg in check_collections()[:2]:
+                    ctx.violation(sig, msg, {"collections": True})
             if not hist["ops"] and not hist.get("via"):
                 ctx.count("relative_checks")
                 for sig, msg in check_relatives(case)[:1]:
